@@ -83,29 +83,41 @@ def pkg_name_of(dirpath):
     raise Infra('no package clause found in ' + dirpath)
 
 
-def gen_overlay(bdir):
+ALWAYS = [('internal__monotime', 'zz_verif_start.go')]
+
+
+def gen_overlay(bdir, sims):
+    """Overlay = runtime patches + kernel copies + the files of the requested sims only
+    (so that a half-written sim of the same package cannot break another one's build)."""
     rep = gen_runtime_overlay(bdir)
     tmpl = open(os.path.join(VERIF, 'kernel', 'simk.go.tmpl')).read()
     gen = os.path.join(bdir, 'gen')
-    # in-package sims: /verif/inpkg/<rel pkg dir with / replaced by __>/*.go -> /repo/<rel>/
     inroot = os.path.join(VERIF, 'inpkg')
-    for d in sorted(os.listdir(inroot)):
-        full = os.path.join(inroot, d)
-        if not os.path.isdir(full):
-            continue
+    want = list(ALWAYS)
+    for sim in sims:
+        d = SIMS[sim]
+        if d['pkg'] != 'world':
+            for fn in d['files']:
+                want.append((d['pkg'], fn))
+    pkgs = set()
+    for d, fn in want:
         rel = '' if d == 'root' else d.replace('__', '/')
         target = os.path.join(REPO, rel)
         if not os.path.isdir(target):
             raise Infra('package dir missing in repo: ' + target)
+        src = os.path.join(inroot, d, fn)
+        if not os.path.exists(src):
+            raise Infra('sim file missing: ' + src)
+        rep[os.path.join(target, fn)] = src
+        if fn.endswith('_test.go'):
+            pkgs.add((d, target))
+    for d, target in pkgs:
         pk = pkg_name_of(target)
         gd = os.path.join(gen, d)
         os.makedirs(gd, exist_ok=True)
         kp = os.path.join(gd, 'zz_simk_test.go')
         write_if_changed(kp, tmpl.replace('package PKGNAME', 'package ' + pk, 1))
         rep[os.path.join(target, 'zz_simk_test.go')] = kp
-        for fn in sorted(os.listdir(full)):
-            if fn.endswith('.go'):
-                rep[os.path.join(target, fn)] = os.path.join(full, fn)
     # world module
     gd = os.path.join(gen, 'verifsim')
     os.makedirs(gd, exist_ok=True)
@@ -146,10 +158,10 @@ def build_binary(bdir, ov, pkgkey):
 
 
 class Builder:
-    def __init__(self, tag):
-        self.bdir = os.path.join(VERIF, '.build', tag)
+    def __init__(self, tag, sims):
+        self.bdir = os.path.join(VERIF, '.build', tag + os.environ.get('VERIF_BUILD_TAG', ''))
         os.makedirs(self.bdir, exist_ok=True)
-        self.ov = gen_overlay(self.bdir)
+        self.ov = gen_overlay(self.bdir, sims)
         self.bins = {}
 
     def binary(self, sim):
@@ -478,7 +490,7 @@ def confirm_and_minimise(b, prop, sim, sig, scenario, seed, do_shrink=True):
 def check(prop, tier, seed):
     t0 = time.time()
     spec = PROPS[prop]
-    b = Builder(prop)
+    b = Builder(prop, [p['sim'] for p in spec['parts']])
     budget = float(os.environ.get('VERIF_BUDGET_S', spec['budget'][tier]))
     parts = spec['parts']
     total_share = sum(p.get('share', 1) for p in parts)
@@ -566,8 +578,9 @@ def check(prop, tier, seed):
         'assumptions': spec.get('assumptions', []),
         'wall_s': round(wall, 2), 'violations': len(violations),
     }
-    os.makedirs(os.path.join(VERIF, 'evidence'), exist_ok=True)
-    with open(os.path.join(VERIF, 'evidence', prop + '.json'), 'w') as f:
+    evdir = os.environ.get('VERIF_EVIDENCE_DIR') or os.path.join(VERIF, 'evidence')
+    os.makedirs(evdir, exist_ok=True)
+    with open(os.path.join(evdir, prop + '.json'), 'w') as f:
         json.dump(ev, f, indent=1, sort_keys=True)
     seen = set()
     for k, sig, path in known:
@@ -596,7 +609,7 @@ def check(prop, tier, seed):
 
 def replay(path, verbose):
     body = json.load(open(path))
-    b = Builder('replay')
+    b = Builder('replay-' + body['sim'], [body['sim']])
     r = run_replay(b, body['sim'], [body['scenario']], verbose=verbose)[0]
     if r is None:
         print('INFRA: replay produced no result')
@@ -618,9 +631,9 @@ def replay(path, verbose):
 
 def selftest_det(sims, nseeds, nprocs, tier):
     """Same seeds in many fresh processes at several concurrency levels; traces must agree."""
-    b = Builder('selftest')
     bad = 0
     for sim in sims:
+        b = Builder('selftest-' + sim, [sim])
         b.binary(sim)
         ref = None
         total = 0
@@ -650,7 +663,52 @@ def selftest_det(sims, nseeds, nprocs, tier):
     return 0 if bad == 0 else 2
 
 
+def with_mutant(patch, rest):
+    """Apply a diff to private copies of the files it touches and map them over /repo with the
+    build overlay; /repo itself is never modified. Then run `verifctl <rest>`."""
+    import tempfile
+    tmp = tempfile.mkdtemp(prefix='verif-mutant-')
+    try:
+        files = []
+        for line in open(patch, errors='replace'):
+            m = re.match(r'^\+\+\+ (?:b/)?(\S+)', line)
+            if m and m.group(1) != '/dev/null':
+                files.append(m.group(1))
+            m = re.match(r'^--- (?:a/)?(\S+)', line)
+            if m and m.group(1) != '/dev/null':
+                files.append(m.group(1))
+        files = sorted(set(files))
+        for f in files:
+            src = os.path.join(REPO, f)
+            dst = os.path.join(tmp, f)
+            os.makedirs(os.path.dirname(dst), exist_ok=True)
+            if os.path.exists(src):
+                shutil.copyfile(src, dst)
+        p = subprocess.run(['patch', '-p1', '-s', '-d', tmp, '-i', os.path.abspath(patch)], stdout=subprocess.PIPE, stderr=subprocess.STDOUT, text=True)
+        if p.returncode != 0:
+            print('INFRA: patch does not apply: ' + p.stdout)
+            return 2
+        rep = {}
+        for f in files:
+            dst = os.path.join(tmp, f)
+            rep[os.path.join(REPO, f)] = dst if os.path.exists(dst) else ''
+        ov = os.path.join(tmp, 'mutant-overlay.json')
+        json.dump({'Replace': rep}, open(ov, 'w'))
+        os.environ['VERIF_MUTANT_OVERLAY'] = ov
+        os.environ['VERIF_BUILD_TAG'] = '-mut%d' % os.getpid()
+        os.environ['VERIF_EVIDENCE_DIR'] = os.path.join(tmp, 'evidence')
+        rc = main(rest)
+        for d in glob.glob(os.path.join(VERIF, '.build', '*-mut%d' % os.getpid())):
+            shutil.rmtree(d, ignore_errors=True)
+        return rc
+    finally:
+        shutil.rmtree(tmp, ignore_errors=True)
+
+
 def main(argv):
+    if argv and argv[0] == 'mutant':
+        # verifctl mutant <patch.diff> <subcommand...>
+        return with_mutant(argv[1], argv[2:])
     ap = argparse.ArgumentParser(prog='verifctl')
     sub = ap.add_subparsers(dest='cmd')
     s = sub.add_parser('setup')
@@ -675,7 +733,7 @@ def main(argv):
     seed = int(os.environ.get('VERIF_SEED') or 1)
     try:
         if a.cmd == 'setup':
-            b = Builder('setup')
+            b = Builder('setup', sorted(SIMS))
             for key in sorted(set(v['pkg'] for v in SIMS.values())):
                 b.bins[key] = build_binary(b.bdir, b.ov, key)
             print('setup ok')
@@ -691,7 +749,7 @@ def main(argv):
         if a.cmd == 'selftest-det':
             return selftest_det(a.sims or sorted(SIMS), a.seeds, 16, a.tier)
         if a.cmd == 'sim':
-            b = Builder('dbg')
+            b = Builder('dbg-' + a.sim, [a.sim])
             merged, viols, crashes = run_search(b, a.sim, seed, a.tier, a.budget, mode=a.mode, count=a.count, nworkers=a.workers)
             merged['shapes'] = len(merged['shapes'])
             merged.pop('runs')
